@@ -24,7 +24,7 @@ fn c13_eq_zero_gain_is_identity() {
 	std::mem::forget(c);
 }
 
-// @h prop=C13,C01 tier=quick kind=main timeout=600
+// @h prop=C13,C01,C14 tier=quick kind=main timeout=600
 // @bounds all three kinds; every finite gain in [-80, +40] dB incl. -60 dB and below; frequency 500 Hz, q 1, 48 kHz: all six coefficients are finite
 // @funcs Coefficients::calculate
 // @assume powf contract stub with 10^e >= 0.0099 for e >= -2 and <= 10.001 for e <= 1; tan contract stub
@@ -49,6 +49,8 @@ const KV_A_MINUS6: f64 = 0.7079457843841379; // 10^(-6/40)
 const KV_TAN_500_48K: f64 = 0.032736610412972586; // tan(pi * 500 / 48000)
 fn kv_pow_table(_b: f64, e: f64) -> f64 { if e > 0.0 { KV_A_PLUS6 } else { KV_A_MINUS6 } }
 fn kv_tan_table(_x: f64) -> f64 { KV_TAN_500_48K }
+// f32 path (Decibels::as_amplitude), should an implementation go through it: 10^(+-6/20)
+fn kv_pow_table32(_b: f32, e: f32) -> f32 { if e > 0.0 { 1.9952623 } else { 0.5011872 } }
 
 fn kv_eq_formula_body(kind: EqFilterKind) {
 	// q and gain are enumerated concretely (symbolic choices put ite-operands into 53-bit dividers: no answer in 600 s)
@@ -78,6 +80,7 @@ fn kv_eq_formula_body(kind: EqFilterKind) {
 #[kani::proof]
 #[kani::unwind(5)]
 #[kani::stub(f64::powf, kv_pow_table)]
+#[kani::stub(f32::powf, kv_pow_table32)]
 #[kani::stub(f64::tan, kv_tan_table)]
 fn c14_eq_bell_coefficients_match_cited_formulas() { kv_eq_formula_body(EqFilterKind::Bell); }
 
@@ -88,6 +91,7 @@ fn c14_eq_bell_coefficients_match_cited_formulas() { kv_eq_formula_body(EqFilter
 #[kani::proof]
 #[kani::unwind(5)]
 #[kani::stub(f64::powf, kv_pow_table)]
+#[kani::stub(f32::powf, kv_pow_table32)]
 #[kani::stub(f64::tan, kv_tan_table)]
 fn c14_eq_low_shelf_coefficients_match_cited_formulas() { kv_eq_formula_body(EqFilterKind::LowShelf); }
 
@@ -97,5 +101,6 @@ fn c14_eq_low_shelf_coefficients_match_cited_formulas() { kv_eq_formula_body(EqF
 #[kani::proof]
 #[kani::unwind(5)]
 #[kani::stub(f64::powf, kv_pow_table)]
+#[kani::stub(f32::powf, kv_pow_table32)]
 #[kani::stub(f64::tan, kv_tan_table)]
 fn c14_eq_high_shelf_coefficients_match_cited_formulas() { kv_eq_formula_body(EqFilterKind::HighShelf); }
